@@ -392,6 +392,10 @@ def run_core(ch, env, prop):
         maxabs = max(float(np.max(np.abs(a.astype(np.float64))[np.isfinite(a)], initial=0.0)) for a in leaves.values())
 
     d = env.fresh_dir()
+    # the pyramid lives in a directory a user might have named (glob metacharacters, spaces, dots)
+    dname = ("pyr", "pyr", "M31 mosaic [v2]", "a*b?c", "out.d/x y")[ch.draw(5, kind="directory_name")]
+    d = os.path.join(d, dname)
+    os.makedirs(d)
     pio = PyramidIO(d, scheme=scheme, default_format=fmt)
     # one run in three writes its float / integer leaves the way the tiling workflows do: through two locked updates
     # (upper half, then lower half) instead of one write
@@ -447,7 +451,7 @@ def run_core(ch, env, prop):
     sparse = any(sum(1 for c in pos_children(pp) if c in have) < 4 for pp in ref)
     res = {"config": {"format": fmt, "mode": mode, "start": start, "workers": workers, "n_leaves": len(leaves),
                       "leaves": sorted(tuple(p) for p in leaves)[:24], "n_stale": n_stale, "filter": use_filter,
-                      "via_builder": via_builder, "merger": merger_kind, "content_seed": seed, "n_parents_expected": len(ref), "scheme": scheme},
+                      "via_builder": via_builder, "merger": merger_kind, "directory": dname, "content_seed": seed, "n_parents_expected": len(ref), "scheme": scheme},
            "extra": {"combo_%s_%s" % (fmt, mode): 1, "workers_%d" % workers: 1, "start_%d" % start: 1},
            "probes": {"stale_parent_planted": n_stale, "sparse_parent": int(sparse), "with_filter": int(use_filter),
                       "parallel_runs": int(workers > 1),
